@@ -3,8 +3,10 @@
 package contracts
 
 import (
+	"github.com/iancoleman/orderedmap"
 	"github.com/meshplus/bitxhub-core/boltvm"
 	"github.com/meshplus/bitxhub-core/governance"
+	service_mgr "github.com/meshplus/bitxhub-core/service-mgr"
 	"github.com/meshplus/bitxhub-model/pb"
 	"github.com/meshplus/bitxhub/internal/repo"
 	zz "github.com/meshplus/bitxhub/internal/zzverif"
@@ -141,4 +143,53 @@ func ZZH_C15_vote_step() {
 	zz.Assert("C15.vote.special-needs-super", !(special && !superVoted) || post.Status == PROPOSED)
 	concluded := post.Status == APPROVED || post.Status == REJECTED
 	zz.Assert("C15.vote.manage-exactly-once-on-conclusion", (concluded && gw.manage == 1) || (!concluded && gw.manage == 0))
+}
+
+// ZZH_C15_submit: a manager contract opens a proposal through the real SubmitProposal while the
+// four governance admins have symbolic statuses (available / frozen / logouting-style unavailable /
+// forbidden), read through the real RoleManager. The electorate recorded for the proposal is
+// exactly the admins available at creation, and the recorded numbers describe that list; then a
+// real Vote by one admin: accepted only from a recorded, still available elector.
+func ZZH_C15_submit() {
+	w, cs := zzFullWorld()
+	w.audit = zz.Choice("audit", 2) == 1
+	statuses := []governance.GovernanceStatus{governance.GovernanceAvailable, governance.GovernanceFrozen, governance.GovernanceForbidden}
+	ids := orderedmap.New()
+	avail := map[string]bool{}
+	nAvail := 0
+	for i, id := range zzAdminIDs {
+		st := governance.GovernanceAvailable
+		if i > 0 { // the super admin stays in office
+			st = statuses[zz.Choice("adminStatus", 3)]
+		}
+		weight := uint64(repo.NormalAdminWeight)
+		if i == 0 {
+			weight = repo.SuperAdminWeight
+		}
+		ids.Set(id, struct{}{})
+		w.putObj(zzRoleAddr, RoleKey(id), Role{ID: id, RoleType: GovernanceAdmin, Weight: weight, Status: st})
+		if st == governance.GovernanceAvailable {
+			avail[id] = true
+			nAvail++
+		}
+	}
+	w.putObj(zzRoleAddr, RoleTypeKey(string(GovernanceAdmin)), ids)
+	w.putObj(zzServiceAddr, service_mgr.ServiceKey("chA:s9"), service_mgr.Service{ChainID: "chA", ServiceID: "s9", Name: "s9", Type: service_mgr.ServiceCallContract,
+		Ordered: true, Permission: map[string]struct{}{}, Status: governance.GovernanceFreezing})
+	ret, err := zzInvoke(w, cs[zzGovAddr], zzGovAddr, zzServiceAddr, "SubmitProposal", []*pb.Arg{
+		pb.String("0xSubmitter"), pb.String(string(governance.EventFreeze)), pb.String(string(ServiceMgr)), pb.String("chA:s9"),
+		pb.String(string(governance.GovernanceAvailable)), pb.String("reason"), pb.Bytes(nil)})
+	zz.Assert("C15.submit.accepted", err == nil)
+	p, ok := zzProposalOf(w, string(ret))
+	zz.Assert("C15.submit.stored", ok && p.Status == PROPOSED)
+	zz.Assert("C15.submit.numbers-describe-electorate", int(p.InitialElectorateNum) == nAvail && int(p.AvailableElectorateNum) == nAvail && len(p.ElectorateList) == nAvail)
+	for _, r := range p.ElectorateList {
+		zz.Assert("C15.submit.only-admins-available-at-creation", avail[r.ID])
+	}
+	// one vote
+	vi := zz.Choice("voter", 4)
+	w.caller = zzAdminIDs[vi]
+	_, verr := zzInvoke(w, cs[zzGovAddr], zzGovAddr, zzAdminIDs[vi], "Vote", []*pb.Arg{pb.String(string(ret)), pb.String(BallotApprove), pb.String("r")})
+	zz.Cover("C15.submit.vote-accepted", verr == nil)
+	zz.Assert("C15.submit.vote-only-from-eligible", (verr == nil) == avail[zzAdminIDs[vi]])
 }
